@@ -48,6 +48,10 @@ pub trait Flavor: 'static {
     const NAME: &'static str;
     fn make(len: usize, page: usize, r: &mut Rng) -> Self::B;
     fn inner(b: &Self::B) -> Option<&AtomicBitmap>;
+    /// identity under which this bitmap reports its mark events (probe flavour only)
+    fn probe_id(_b: &Self::B) -> Option<u64> {
+        None
+    }
 }
 pub struct FAtomic;
 impl Flavor for FAtomic {
@@ -84,6 +88,108 @@ impl Flavor for FArc {
     }
     fn inner(b: &ArcBm) -> Option<&AtomicBitmap> {
         Some(&b.0)
+    }
+}
+
+// A bitmap that OBSERVES the moment of every mark: it snapshots the bytes of the pages being
+// marked, so that the judge can tell whether the bytes an operation changed had already been
+// written when their page was marked. (A harvest may run at any moment; a page marked before
+// its bytes are written is harvested clean-to-be-dirtied, and the later write goes unreported.)
+thread_local! {
+    /// probe id -> (host address of the region, region length, page size)
+    static PROBE_REGIONS: std::cell::RefCell<Vec<(u64, usize, usize, usize)>> = const { std::cell::RefCell::new(Vec::new()) };
+    /// (probe id, offset of the first snapshotted byte, bytes)
+    static PROBE_EVENTS: std::cell::RefCell<Vec<(u64, usize, Vec<u8>)>> = const { std::cell::RefCell::new(Vec::new()) };
+}
+static PROBE_NEXT: std::sync::atomic::AtomicU64 = std::sync::atomic::AtomicU64::new(1);
+
+fn probe_mark(id: u64, abs: usize, len: usize) {
+    if len == 0 {
+        return;
+    }
+    let reg = PROBE_REGIONS.with(|t| t.borrow().iter().find(|e| e.0 == id).cloned());
+    let Some((_, host, rlen, page)) = reg else { return };
+    if abs >= rlen {
+        return;
+    }
+    let first = abs / page * page;
+    let end = abs.saturating_add(len).min(rlen);
+    let last = ((end - 1) / page + 1).saturating_mul(page).min(rlen);
+    // SAFETY: inside the live region registered by the history that owns it.
+    let bytes: Vec<u8> = (first..last).map(|k| unsafe { ((host + k) as *const u8).read_volatile() }).collect();
+    PROBE_EVENTS.with(|t| t.borrow_mut().push((id, first, bytes)));
+}
+
+pub struct ProbeBm {
+    bm: Arc<AtomicBitmap>,
+    id: u64,
+}
+#[derive(Clone, Debug)]
+pub struct ProbeSlice {
+    bm: Arc<AtomicBitmap>,
+    id: u64,
+    base: usize,
+}
+impl WithBitmapSlice<'_> for ProbeBm {
+    type S = ProbeSlice;
+}
+impl WithBitmapSlice<'_> for ProbeSlice {
+    type S = ProbeSlice;
+}
+impl BitmapSlice for ProbeSlice {}
+impl Bitmap for ProbeBm {
+    fn mark_dirty(&self, offset: usize, len: usize) {
+        probe_mark(self.id, offset, len);
+        self.bm.set_addr_range(offset, len)
+    }
+    fn dirty_at(&self, offset: usize) -> bool {
+        self.bm.is_addr_set(offset)
+    }
+    fn slice_at(&self, offset: usize) -> ProbeSlice {
+        ProbeSlice { bm: self.bm.clone(), id: self.id, base: offset }
+    }
+}
+impl Bitmap for ProbeSlice {
+    fn mark_dirty(&self, offset: usize, len: usize) {
+        let abs = self.base.saturating_add(offset);
+        probe_mark(self.id, abs, len);
+        self.bm.set_addr_range(abs, len)
+    }
+    fn dirty_at(&self, offset: usize) -> bool {
+        self.bm.is_addr_set(self.base.saturating_add(offset))
+    }
+    fn slice_at(&self, offset: usize) -> ProbeSlice {
+        ProbeSlice { bm: self.bm.clone(), id: self.id, base: self.base.saturating_add(offset) }
+    }
+}
+impl Default for ProbeBm {
+    fn default() -> Self {
+        ProbeBm { bm: Arc::new(AtomicBitmap::default()), id: PROBE_NEXT.fetch_add(1, Ordering::Relaxed) }
+    }
+}
+impl vm_memory::bitmap::NewBitmap for ProbeBm {
+    fn with_len(len: usize) -> Self {
+        ProbeBm { bm: Arc::new(AtomicBitmap::with_len(len)), id: PROBE_NEXT.fetch_add(1, Ordering::Relaxed) }
+    }
+}
+pub struct FProbe;
+impl Flavor for FProbe {
+    type B = ProbeBm;
+    const NAME: &'static str = "probe";
+    fn make(len: usize, page: usize, _r: &mut Rng) -> ProbeBm {
+        ProbeBm { bm: Arc::new(AtomicBitmap::new(len, NonZeroUsize::new(page).unwrap())), id: PROBE_NEXT.fetch_add(1, Ordering::Relaxed) }
+    }
+    fn inner(b: &ProbeBm) -> Option<&AtomicBitmap> {
+        Some(&b.bm)
+    }
+    fn probe_id(b: &ProbeBm) -> Option<u64> {
+        Some(b.id)
+    }
+}
+#[cfg(feature = "xen")]
+impl XenMake for FProbe {
+    fn make_xen(start: u64, len: usize) -> Option<GuestRegionMmap<ProbeBm>> {
+        GuestRegionMmap::<ProbeBm>::from_range(GuestAddress(start), len, None).ok()
     }
 }
 
@@ -155,6 +261,8 @@ struct World {
     flavor: &'static str,
     trace: Vec<String>,
     bad: bool,
+    /// probe identity of each region's bitmap (probe flavour only)
+    probe: Vec<Option<u64>>,
 }
 
 #[derive(Clone, Copy, PartialEq, Eq, Debug)]
@@ -261,6 +369,19 @@ fn judge<B: Bitmap + 'static>(w: &mut World, gm: &GuestMemoryMmap<B>, route: &st
         let bits = read_bits(reg, w.page, w.npages(i));
         let mut cp = vec![false; bits.len()];
         let changed_idx: Vec<usize> = ab.iter().zip(w.snap_bytes[i].iter()).enumerate().filter(|(_, (a, b))| a != b).map(|(x, _)| x).collect();
+        // probe flavour: when its page was marked, the byte must already have held its new value
+        if let Some(id) = w.probe[i] {
+            let evs: Vec<(usize, Vec<u8>)> = PROBE_EVENTS.with(|t| t.borrow().iter().filter(|e| e.0 == id).map(|e| (e.1, e.2.clone())).collect());
+            if !changed_idx.is_empty() {
+                out::count("probe_ops_with_mark_events", (!evs.is_empty()) as i128);
+            }
+            for &x in &changed_idx {
+                let covering: Vec<&(usize, Vec<u8>)> = evs.iter().filter(|(f, b)| x >= *f && x < *f + b.len()).collect();
+                if !covering.is_empty() && !covering.iter().any(|(f, b)| b[x - *f] == ab[x]) && !w.bad {
+                    w.fail("C05", &format!("{}/{}/page-marked-before-its-bytes-were-written", route, level), jobj! {"region" => i, "offset" => x, "page" => x / w.page, "mark_events" => evs.len()});
+                }
+            }
+        }
         for x in changed_idx {
             {
                 any_changed = true;
@@ -316,6 +437,12 @@ fn judge<B: Bitmap + 'static>(w: &mut World, gm: &GuestMemoryMmap<B>, route: &st
     }
     w.snap_bytes = after_bytes;
     w.snap_bits = after_bits;
+    PROBE_EVENTS.with(|t| t.borrow_mut().clear());
+}
+
+/// A descriptor-backed sink every write(2) to which fails (opened read-only: EBADF).
+fn failing_fd_sink() -> std::fs::File {
+    std::fs::File::open("/dev/zero").expect("open /dev/zero")
 }
 
 /// Scripted reader: delivers `first` bytes on the first call (through the slice's own write
@@ -634,6 +761,14 @@ fn slice_op<B: Bitmap + 'static, S: BitmapSlice>(w: &mut World, gm: &GuestMemory
                     if !cfg!(miri) {
                         let mut f = temp_file(0);
                         let _ = s.write_all_volatile_to(off, &mut f, len.min(room));
+                        // a descriptor write that FAILS still only reads guest memory
+                        let mut bad = failing_fd_sink();
+                        let e1 = s.write_volatile_to(off, &mut bad, len.min(room));
+                        let e2 = s.write_all_volatile_to(off, &mut bad, len.min(room));
+                        if len.min(room) > 0 && off < s.len() && (e1.is_ok() || e2.is_ok()) {
+                            out::note("C05-16/write-to-read-only-descriptor-succeeded", J::Null);
+                        }
+                        out::count("failing_descriptor_writes", 2);
                     }
                 }
             }
@@ -850,6 +985,12 @@ fn region_op<B: Bitmap + 'static>(w: &mut World, gm: &GuestMemoryMmap<B>, ri: us
             let mut sink: Vec<u8> = vec![];
             let _ = reg.write_volatile_to(ma, &mut sink, len);
             let _ = reg.write_all_volatile_to(ma, &mut sink, len);
+            if !cfg!(miri) {
+                let mut bad = failing_fd_sink();
+                let _ = reg.write_volatile_to(ma, &mut bad, len);
+                let _ = reg.write_all_volatile_to(ma, &mut bad, len);
+                out::count("failing_descriptor_writes", 2);
+            }
             kind = Kind::NoWrite;
             "write_volatile_to/write_all_volatile_to"
         }
@@ -943,6 +1084,12 @@ fn guest_op<B: Bitmap + 'static>(w: &mut World, gm: &GuestMemoryMmap<B>, r: &mut
             let mut sink: Vec<u8> = vec![];
             let _ = gm.write_volatile_to(ga, &mut sink, len);
             let _ = gm.write_all_volatile_to(ga, &mut sink, len);
+            if !cfg!(miri) {
+                let mut bad = failing_fd_sink();
+                let _ = gm.write_volatile_to(ga, &mut bad, len);
+                let _ = gm.write_all_volatile_to(ga, &mut bad, len);
+                out::count("failing_descriptor_writes", 2);
+            }
             kind = Kind::NoWrite;
             "write_volatile_to/write_all_volatile_to"
         }
@@ -1044,9 +1191,15 @@ fn history<F: Flavor + XenMake>(case: u64, args: &Args) {
         start += len as u64 + *r.pick(&[0u64, 0, 0, 1, 4096]);
     }
     let gm = GuestMemoryMmap::from_regions(regions).unwrap();
-    let mut w = World { regs, page, tracked: vec![], snap_bytes: vec![], snap_bits: vec![], flavor: F::NAME, trace: vec![], bad: false };
+    let mut w = World { regs, page, tracked: vec![], snap_bytes: vec![], snap_bits: vec![], flavor: F::NAME, trace: vec![], bad: false, probe: vec![] };
+    PROBE_REGIONS.with(|t| t.borrow_mut().clear());
+    PROBE_EVENTS.with(|t| t.borrow_mut().clear());
     for (i, reg) in gm.iter().enumerate() {
         w.tracked.push(F::inner(reg.bitmap()).is_some());
+        w.probe.push(F::probe_id(reg.bitmap()));
+        if let Some(id) = F::probe_id(reg.bitmap()) {
+            PROBE_REGIONS.with(|t| t.borrow_mut().push((id, w.regs[i].2 as usize, w.regs[i].1, page)));
+        }
         let (_, l, p) = w.regs[i];
         let init = r.bytes(l);
         for (k, b) in init.iter().enumerate() {
@@ -1097,14 +1250,16 @@ pub fn run(args: &Args) {
     out::set_quiet_cases(true);
     for case in args.cases(4000) {
         #[cfg(not(feature = "xen"))]
-        let res = guarded(|| match case % 3 {
+        let res = guarded(|| match case % 4 {
             0 => history::<FAtomic>(case, args),
             1 => history::<FOption>(case, args),
+            2 => history::<FProbe>(case, args),
             _ => history::<FArc>(case, args),
         });
         #[cfg(feature = "xen")]
-        let res = guarded(|| match case % 2 {
+        let res = guarded(|| match case % 3 {
             0 => history::<FAtomic>(case, args),
+            1 => history::<FProbe>(case, args),
             _ => history::<FArc>(case, args),
         });
         if let Err(p) = res {
